@@ -841,19 +841,26 @@ class Network:
         )
         self.peer_connections.append(connection)
 
-        await connection.connect()
-        await connection.send_message(
-            PeerInit.Request(
-                self._settings.credentials.username,
-                typ,
-                ticket
+        try:
+            await connection.connect()
+            await connection.send_message(
+                PeerInit.Request(
+                    self._settings.credentials.username,
+                    typ,
+                    ticket
+                )
             )
-        )
 
-        self._finalize_peer_connection(connection)
+            self._finalize_peer_connection(connection)
 
-        await self._event_bus.emit(
-            PeerInitializedEvent(connection, requested=True))
+            await self._event_bus.emit(
+                PeerInitializedEvent(connection, requested=True))
+
+        except BaseException:
+            # A failed or cancelled attempt (for example the loser in race
+            # mode) must not leave its socket open and registered
+            await connection.disconnect(CloseReason.CONNECT_FAILED)
+            raise
 
         return connection
 
